@@ -327,6 +327,44 @@ void run_book_op(World* w, const std::string& name, const std::string& args)
         }
         return;
     }
+    if (name == "c19gostat")
+    {
+        // the answers of all `go` commands of this session on one book position, random policy: the engine's own
+        // sampler state must advance from request to request, so the answers follow the weights as well
+        std::string fen = args;
+        ref::Board mb(fen);
+        uint64_t key = spec_polyglot_key(mb);
+        std::map<std::string, int64_t> weight_of, obs;
+        int64_t sum = 0, n = 0;
+        for (auto& r : bs.complete)
+            if (r.key == key) { weight_of[decode_polyglot_move(mb, r.move)] += r.weight; sum += r.weight; }
+        if (weight_of.size() < 2 || sum <= 0 || bs.policy_best || bs.fault == BF_EIO || bs.fault == BF_ENOENT) return;
+        std::string k4 = mb.key4();
+        for (auto& g : w->gos)
+            if (g.bestmoves > 0 && g.root.key4() == k4 && g.infos.empty()) { obs[g.bestmove]++; n++; }
+        if (n < 20) return;
+        w->counters["c19_go_distribution_checks"]++;
+        auto log_pmf = [](int64_t nn, double p, int64_t k) {
+            return std::lgamma(double(nn) + 1) - std::lgamma(double(k) + 1) - std::lgamma(double(nn - k) + 1) + double(k) * std::log(p) + double(nn - k) * std::log1p(-p);
+        };
+        for (auto& kv : weight_of)
+        {
+            if (kv.second <= 0 || kv.second >= sum) continue;
+            double p = double(kv.second) / double(sum);
+            int64_t o = obs.count(kv.first) ? obs[kv.first] : 0;
+            double tail = 0;
+            if (double(o) >= p * double(n)) { for (int64_t i = o; i <= n; ++i) tail += std::exp(log_pmf(n, p, i)); }
+            else { for (int64_t i = o; i >= 0; --i) tail += std::exp(log_pmf(n, p, i)); }
+            if (tail < 1e-10)
+            {
+                std::string dist;
+                for (auto& x : weight_of) dist += x.first + ":" + std::to_string(x.second) + "->" + std::to_string(obs.count(x.first) ? obs[x.first] : 0) + " ";
+                w->violation("C19", "random-policy-not-proportional-to-weight", fen + " over " + std::to_string(n) + " go commands of one session: " + dist);
+                return;
+            }
+        }
+        return;
+    }
     if (name == "c19policy")
     {
         bs.policy_best = args == "best";
@@ -663,6 +701,18 @@ Script gen_book_script(uint64_t run_seed, const std::string& tier, Rng& r)
             {
                 s.ops.push_back(op(OP_SEND, "go depth " + std::to_string(r.range(1, 3))));
                 s.ops.push_back(op(OP_AWAIT_BEST, ""));
+            }
+            if (!best && r.chance(0.15))
+            {
+                // the same book position asked many times in one session
+                int reps = int(r.range(30, 60));
+                for (int i = 0; i < reps; ++i)
+                {
+                    s.ops.push_back(op(OP_SEND, "go depth 1"));
+                    s.ops.push_back(op(OP_AWAIT_BEST, ""));
+                }
+                s.ops.push_back(op(OP_AWAIT_IDLE, ""));
+                s.ops.push_back(op(OP_CHECK, "c19gostat " + p.game.cur.fen()));
             }
             if (r.chance(0.7))
             {
